@@ -1,5 +1,209 @@
-(* MarkupIO.v — stub: replaced by the real decoder/runner when the property is built. *)
-From Coq Require Import List.
-From M Require Import Sx.
+(* MarkupIO.v - decoding of generated C14 cases (a machine description in the shape of a
+   markup dict + a script of operations) and encoding of the model's observation:
+   every markup read during the script, the final markup, the markup of the machine
+   rebuilt from it, and whether the rebuilt description behaves like the original. *)
+From Coq Require Import List Arith Bool String Ascii.
+From M Require Import Sx Markup.
 Import ListNotations.
-Definition run_markup_case (x : sx) : sx := L [N 0].
+Open Scope list_scope.
+
+(* strings travel as lists of character codes *)
+Definition d_string (x : sx) : option string :=
+  match x with
+  | N _ => None
+  | L l => fold_right (fun y acc => match y, acc with
+                                    | N n, Some s => Some (String (ascii_of_nat n) s)
+                                    | _, _ => None end) (Some EmptyString) l
+  end.
+Fixpoint e_string (s : string) : sx :=
+  match s with
+  | EmptyString => L []
+  | String a r => match e_string r with L l => L (N (nat_of_ascii a) :: l) | x => x end
+  end.
+Definition d_strs := d_list d_string.
+Definition e_strs := e_list e_string.
+
+Definition d_init (x : sx) : option init :=
+  match x with
+  | L [] => Some None
+  | L [L [N 0; s]] => do s' <- d_string s; Some (Some (inl s'))
+  | L [L [N 1; l]] => do l' <- d_strs l; Some (Some (inr l'))
+  | _ => None
+  end.
+Definition e_init (i : init) : sx :=
+  match i with
+  | None => L []
+  | Some (inl s) => L [L [N 0; e_string s]]
+  | Some (inr l) => L [L [N 1; e_strs l]]
+  end.
+
+Definition d_aval (x : sx) : option aval :=
+  match x with
+  | L [N 0; s] => do s' <- d_string s; Some (AStr s')
+  | L [N 1; b] => do b' <- d_bool b; Some (ABool b')
+  | L [N 2; l] => do l' <- d_strs l; Some (AList l')
+  | _ => None
+  end.
+Definition e_aval (a : aval) : sx :=
+  match a with
+  | AStr s => L [N 0; e_string s] | ABool b => L [N 1; e_bool b] | AList l => L [N 2; e_strs l]
+  end.
+Definition d_attrs := d_list (d_pair d_string d_aval).
+Definition e_attrs := e_list (e_pair e_string e_aval).
+
+Definition d_ktrans (x : sx) : option ktrans :=
+  match x with
+  | L [a; t; c; u] =>
+      do a' <- d_attrs a; do t' <- d_string t; do c' <- d_option d_strs c; do u' <- d_option d_strs u;
+      Some (mkKT a' t' c' u')
+  | _ => None
+  end.
+Definition e_ktrans (k : ktrans) : sx :=
+  L [e_attrs (kt_attrs k); e_string (kt_trigger k); e_option e_strs (kt_conditions k);
+     e_option e_strs (kt_unless k)].
+
+Fixpoint d_kstate (x : sx) : option kstate :=
+  match x with
+  | L [nm; a; sc; ini; trs; L ch] =>
+      do n <- d_string nm; do a' <- d_attrs a; do sc' <- d_bool sc; do i <- d_init ini;
+      do t <- d_list d_ktrans trs;
+      do c <- (fix go (l : list sx) : option (list kstate) :=
+                 match l with
+                 | [] => Some []
+                 | y :: r => match d_kstate y, go r with
+                             | Some u, Some v => Some (u :: v) | _, _ => None end
+                 end) ch;
+      Some (KState n a' sc' i t c)
+  | _ => None
+  end.
+Fixpoint e_kstate (k : kstate) : sx :=
+  L [e_string (ks_name k); e_attrs (ks_attrs k); e_bool (ks_scope k); e_init (ks_initial k);
+     e_list e_ktrans (ks_transitions k); L (map e_kstate (ks_children k))].
+
+Fixpoint d_mstate (x : sx) : option mstate :=
+  match x with
+  | L [N 0; p] => do p' <- d_strs p; Some (MS p')
+  | L [N 1; L l] =>
+      do l' <- (fix go (l : list sx) : option (list mstate) :=
+                  match l with
+                  | [] => Some []
+                  | y :: r => match d_mstate y, go r with
+                              | Some u, Some v => Some (u :: v) | _, _ => None end
+                  end) l;
+      Some (ML l')
+  | _ => None
+  end.
+Fixpoint e_mstate (m : mstate) : sx :=
+  match m with
+  | MS p => L [N 0; e_strs p]
+  | ML l => L [N 1; L (map e_mstate l)]
+  end.
+Definition d_kmodel (x : sx) : option kmodel :=
+  match x with
+  | L [s; c] => do s' <- d_mstate s; do c' <- d_string c; Some (mkKM s' c')
+  | _ => None
+  end.
+Definition e_kmodel (k : kmodel) : sx := L [e_mstate (km_state k); e_string (km_class k)].
+
+Definition d_markup (x : sx) : option markup :=
+  match x with
+  | L [bsc; asc; pe; fe; oe; ofi; send; auto; attr; ovr; ign; qd; mds; ini; nm; trs; sts] =>
+      do bsc' <- d_strs bsc; do asc' <- d_strs asc; do pe' <- d_strs pe; do fe' <- d_strs fe;
+      do oe' <- d_strs oe; do of' <- d_strs ofi;
+      do send' <- d_bool send; do auto' <- d_bool auto; do attr' <- d_string attr; do ovr' <- d_bool ovr;
+      do ign' <- d_option d_bool ign; do qd' <- d_bool qd;
+      do mds' <- d_list d_kmodel mds; do ini' <- d_init ini; do nm' <- d_option d_string nm;
+      do trs' <- d_list d_ktrans trs; do sts' <- d_list d_kstate sts;
+      Some (mkMarkup bsc' asc' pe' fe' oe' of' send' auto' attr' ovr' ign' qd' mds' ini' nm' trs' sts')
+  | _ => None
+  end.
+Definition e_markup (k : markup) : sx :=
+  L [e_strs (k_bsc k); e_strs (k_asc k); e_strs (k_pe k); e_strs (k_fe k); e_strs (k_oe k); e_strs (k_of k);
+     e_bool (k_send k); e_bool (k_auto k); e_string (k_attr k); e_bool (k_override k);
+     e_option e_bool (k_ignore k); e_bool (k_queued k);
+     e_list e_kmodel (k_models k); e_init (k_initial k); e_option e_string (k_name k);
+     e_list e_ktrans (k_transitions k); e_list e_kstate (k_states k)].
+
+Definition d_dest (x : sx) : option dest_spec :=
+  match x with
+  | L [N 0] => Some DSame
+  | L [N 1] => Some DNone
+  | L [N 2; s] => do s' <- d_string s; Some (DTo s')
+  | _ => None
+  end.
+
+Definition d_op (x : sx) : option op :=
+  match x with
+  | L [N 0] => Some OGet
+  | L [N 1; sc; k] => do sc' <- d_strs sc; do k' <- d_kstate k; Some (OAddState sc' k')
+  | L [N 2; sc; trg; src; dst; c; u; p; b; a] =>
+      do sc' <- d_strs sc; do trg' <- d_string trg; do src' <- d_option d_strs src; do dst' <- d_dest dst;
+      do c' <- d_strs c; do u' <- d_strs u; do p' <- d_strs p; do b' <- d_strs b; do a' <- d_strs a;
+      Some (OAddTrans sc' trg' src' dst' c' u' p' b' a')
+  | L [N 3; trg; src; dst] =>
+      do trg' <- d_string trg; do src' <- d_option d_strs src; do dst' <- d_option d_strs dst;
+      Some (ORemTrans trg' src' dst')
+  | L [N 4; N k; p; cb] => do p' <- d_strs p; do cb' <- d_string cb; Some (ORegState k p' cb')
+  | L [N 5; N k; trg; cb] => do trg' <- d_string trg; do cb' <- d_string cb; Some (ORegEvent k trg' cb')
+  | L [N 6; N i; st] => do st' <- d_mstate st; Some (OSetModel i st')
+  | L [N 7; cls; st] => do cls' <- d_string cls; do st' <- d_mstate st; Some (OAddModel cls' st')
+  | L [N 8; N k; p; cb] => do p' <- d_strs p; do cb' <- d_string cb; Some (ODirectState k p' cb')
+  | L [N 9; N w; l] => do l' <- d_strs l; Some (OSetList w l')
+  | _ => None
+  end.
+
+(* the behaviour-relevant view of a description: everything, with each state's
+   ignore_invalid_triggers replaced by the effective flag *)
+Definition e_trans (t : trans) : sx :=
+  L [e_string (t_source t); e_option e_string (t_dest t); e_strs (t_conditions t); e_strs (t_unless t);
+     e_strs (t_prepare t); e_strs (t_before t); e_strs (t_after t)].
+Definition e_events (evs : events) : sx :=
+  e_list (e_pair e_string (e_list (e_pair e_string (e_list e_trans)))) evs.
+Fixpoint e_state_view (mign : option bool) (s : state) : sx :=
+  L [e_string (s_name s); e_strs (s_on_enter s); e_strs (s_on_exit s); e_strs (s_on_final s);
+     e_bool (eff_ignore mign (s_ignore s)); e_bool (s_final s); e_init (s_initial s);
+     L (map (e_state_view mign) (s_children s)); e_events (s_events s)].
+Definition e_view (m : machine) : sx :=
+  L [e_bool (m_hsm m); L (map (e_state_view (m_ignore m)) (m_states m)); e_events (m_events m);
+     e_init (m_initial m); e_strs (m_bsc m); e_strs (m_asc m); e_strs (m_pe m); e_strs (m_fe m);
+     e_strs (m_oe m); e_strs (m_of m); e_bool (m_send m); e_bool (m_auto m); e_string (m_attr m);
+     e_bool (m_override m); e_bool (eff_ignore (m_ignore m) None); e_bool (m_queued m);
+     e_list (fun md => L [e_mstate (md_state md); e_string (md_class md)]) (m_models m)].
+
+Fixpoint sx_eqb (a b : sx) : bool :=
+  match a, b with
+  | N n, N m => Nat.eqb n m
+  | L l, L k => (fix eq (x y : list sx) : bool :=
+                   match x, y with
+                   | [], [] => true
+                   | u :: x', v :: y' => sx_eqb u v && eq x' y'
+                   | _, _ => false end) l k
+  | _, _ => false
+  end.
+
+(* run the script, collecting the markup at every OGet *)
+Fixpoint run_script (ops : list op) (x : mm) (acc : list sx) : mm * list sx :=
+  match ops with
+  | [] => (x, rev acc)
+  | OGet :: r => let g := getter x in
+      run_script r (fst g) (L [e_markup (snd g); e_markup (to_markup (mach x))] :: acc)
+  | o :: r => run_script r (step x o) acc
+  end.
+
+(* case := [hsm; description; script] *)
+Definition run_markup_case (x : sx) : sx :=
+  match x with
+  | L [h; d; os] =>
+      match d_bool h, d_markup d, d_list d_op os with
+      | Some hsm, Some d', Some ops =>
+          let r := run_script ops (construct hsm d') [] in
+          let g := getter (fst r) in
+          let mk := snd g in
+          let rebuilt := construct_markup hsm mk in
+          L [N 1; L (snd r); L [e_markup mk; e_markup (to_markup (mach (fst r)))]; e_markup (snd (getter rebuilt));
+             e_bool (sx_eqb (e_view (mach rebuilt)) (e_view (mach (fst g))));
+             e_bool (wf_machine (mach (fst g)))]
+      | _, _, _ => L [N 0]
+      end
+  | _ => L [N 0]
+  end.
